@@ -20,6 +20,11 @@ func (i *interpreter) boundsCheck(idx value, n int) {
 	if s, ok := idx.(sym); ok {
 		c := i.path.tc
 		t := i.asInt64Term(s)
+		if OptArith {
+			if r, ok := rangeOf(t, 0); ok && r.lo >= 0 && r.hi < int64(n) {
+				return // models_c35.go interval analysis: e.g. a zero-extended byte indexing a [256]T
+			}
+		}
 		inb := c.cmp(opUlt, t, c.bv(uint64(n), 64))
 		i.path.implicit++
 		if !i.path.branch(inb) {
@@ -66,6 +71,11 @@ func (i *interpreter) indexAddr(instr *ssa.IndexAddr, x, idx value) value {
 }
 
 func (i *interpreter) symLoad(r *symref) value {
+	if OptArith {
+		if v, ok := i.constTableLoad(r); ok { // models_c34.go: mux tree for constant tables
+			return v
+		}
+	}
 	c := i.path.tc
 	k0, _ := kindOf(r.elems[0])
 	res := c.termOf(r.elems[len(r.elems)-1])
